@@ -184,6 +184,7 @@ class Ctx:
         self._labels: list[str] = []
         self.deadline = float("inf")
         self.replaying = False
+        self.failed_fps: set[str] = set()  # cases that already failed: Hypothesis re-executes them, never budget-skip
 
     # tolerances ---------------------------------------------------------------------------
     @property
@@ -294,7 +295,7 @@ def run_case(ctx: Ctx, sub: Sub, case: dict, count: bool = True):
     ctx._case = case
     ctx._nontrivial = False
     ctx._labels = []
-    if time.time() > ctx.deadline and not ctx.replaying:
+    if time.time() > ctx.deadline and not ctx.replaying and fingerprint(case) not in ctx.failed_fps:
         res.budget_skipped += 1
         return None
     if not ctx.replaying and ctx.excluded(case):
@@ -306,6 +307,7 @@ def run_case(ctx: Ctx, sub: Sub, case: dict, count: bool = True):
         return None
     except Violation as v:
         _account(ctx, case, count)
+        ctx.failed_fps.add(fingerprint(case))
         return {
             "sub": sub.name,
             "lane": ctx.lane,
@@ -322,6 +324,7 @@ def run_case(ctx: Ctx, sub: Sub, case: dict, count: bool = True):
         tb = "".join(traceback.format_exception(type(e), e, e.__traceback__))[-3000:]
         if owner == "fdtdx" and sub.foreign_exceptions_are_violations:
             _account(ctx, case, count)
+            ctx.failed_fps.add(fingerprint(case))
             return {
                 "sub": sub.name,
                 "lane": ctx.lane,
